@@ -14,6 +14,7 @@ open Dom
 open Construct
 open EasyList
 open UserField
+open Package
 
 type sx = A of string | L of sx list
 
@@ -232,6 +233,33 @@ let dispatch (f : string) (args : sx list) : sx =
       sx_of_result (fun ds' -> L (SL.map (fun (r : (coq_N list * coq_N list) * coq_N list option) ->
           let ((n, t), v) = r in L [sx_of_str n; sx_of_str t; sx_of_opt sx_of_str v])
         (UserField.list_fields_and_values None ds'))) (UserField.update data' (SL.map decl_of ds))
+  | "pkg_save", [t] ->
+      let rec odoc_of = function
+        | L [mt; fo; hs; L pics; L kids] ->
+            ODoc (str_of_sx mt, str_of_sx fo, bool_of_sx hs,
+                  SL.map (function L [n; dt; m] -> { pc_name = str_of_sx n; pc_data = str_of_sx dt; pc_mt = str_of_sx m } | _ -> failwith "pic") pics,
+                  SL.map odoc_of kids)
+        | _ -> failwith "odoc" in
+      let top = (match t with
+        | L [root; th; L ex] ->
+            { t_root = odoc_of root; t_thumb = opt_of_sx str_of_sx th;
+              t_extras = SL.map (function L [n; m; c] -> ((str_of_sx n, str_of_sx m), opt_of_sx str_of_sx c) | _ -> failwith "extra") ex }
+        | _ -> failwith "topdoc") in
+      let (es, man) = Package.save_m top in
+      let pl = function
+        | DBytes b -> L [A "B"; sx_of_str b]
+        | DPart (p, fo) -> L [A (match p with PStyles -> "styles" | PContent -> "content" | PSettings -> "settings" | PMeta -> "meta"); sx_of_str fo]
+        | DManifest -> A "manifest" in
+      L [ L (SL.map (fun e -> L [sx_of_str e.e_name; sx_of_bool e.e_stored; pl e.e_data]) es);
+          L (SL.map (fun (a, b) -> L [sx_of_str a; sx_of_str b]) man) ]
+  | "pkg_addobject", [pf; n; nm] ->
+      let (c, r) = Package.add_object (str_of_sx pf) (nat_of_sx n) (ODoc ([], [], false, [], [])) (opt_of_sx str_of_sx nm) in
+      L [sx_of_str (o_folder c); sx_of_str r]
+  | "pkg_classify", [L man; p] ->
+      let m = SL.map (function L [a; b] -> (str_of_sx a, str_of_sx b) | _ -> failwith "man") man in
+      A (match Package.classify m (str_of_sx p) with
+         | IsPicture -> "picture" | IsThumbnail -> "thumbnail" | IsRootPart -> "rootpart" | IsRootEntry -> "rootentry"
+         | IsObject -> "object" | IsObjectPart -> "objectpart" | IsExtra -> "extra")
   | _ -> failwith ("unknown function " ^ f)
 
 let () =
